@@ -128,7 +128,9 @@ class Check:
         if self.broken:
             for b in self.broken:
                 print("ANALYSIS-BROKEN: property=%s %s" % (self.pid, b))
-            return 2
+            if not new:
+                return 2
+            # a definite refutation is reported even when another rule could not be evaluated
         if new:
             rd = os.path.join(EVD, "replay")
             os.makedirs(rd, exist_ok=True)
